@@ -30,6 +30,9 @@ type InvalidCase struct {
 	ErrorPayload []map[string]interface{} `json:"error_payload,omitempty"`
 	Fault        *Fault                   `json:"fault,omitempty"`
 	WithData     bool                     `json:"with_data,omitempty"`
+	// a second sub-request (another service, or a later request to the same one) failing in the same run
+	ErrorPayload2 []map[string]interface{} `json:"error_payload2,omitempty"`
+	Fault2        *Fault                   `json:"fault2,omitempty"`
 }
 
 var editKinds = []string{"unknownField", "unknownType", "unknownArgument", "unknownDirective", "undefinedVariable", "unusedVariable", "wrongVariableType",
@@ -287,7 +290,7 @@ func checkC10(c *InvalidCase) (*ev.Failure, string) {
 		return nil, "invalid:" + c.Edit
 	}
 	// C10b: downstream errors reach the client intact
-	hit := 0
+	hit, hit2 := 0, 0
 	occ := map[string]int{}
 	var mu sync.Mutex
 	net.Fault = func(callIdx int, url string, reqs []*fake.Received, normal []map[string]interface{}) *fake.FaultResponse {
@@ -298,26 +301,34 @@ func checkC10(c *InvalidCase) (*ev.Failure, string) {
 		defer mu.Unlock()
 		n := occ[url]
 		occ[url]++
-		if url != c.Fault.URL || n != c.Fault.Occurrence || c.Fault.Pos >= len(normal) {
+		var fl *Fault
+		var payload []map[string]interface{}
+		switch {
+		case url == c.Fault.URL && n == c.Fault.Occurrence && c.Fault.Pos < len(normal):
+			fl, payload = c.Fault, c.ErrorPayload
+			hit++
+		case c.Fault2 != nil && url == c.Fault2.URL && n == c.Fault2.Occurrence && c.Fault2.Pos < len(normal):
+			fl, payload = c.Fault2, c.ErrorPayload2
+			hit2++
+		default:
 			return nil
 		}
-		hit++
 		elems := make([]interface{}, len(normal))
 		for i := range normal {
 			elems[i] = normal[i]
 		}
-		el := map[string]interface{}{"errors": c.ErrorPayload}
+		el := map[string]interface{}{"errors": payload}
 		if c.WithData {
-			el["data"] = normal[c.Fault.Pos]["data"]
+			el["data"] = normal[fl.Pos]["data"]
 		} else {
 			el["data"] = nil
 		}
-		elems[c.Fault.Pos] = el
+		elems[fl.Pos] = el
 		b, _ := json.Marshal(elems)
 		return &fake.FaultResponse{Body: b}
 	}
 	resp := gwx.PostOp(gw, gwx.GQLRequest{Query: c.Op.Query, Variables: c.Op.Variables, OperationName: c.Op.OperationName}, 10*time.Second)
-	if hit == 0 {
+	if hit == 0 && hit2 == 0 {
 		return nil, "skip:fault-not-hit"
 	}
 	if resp.TimedOut || resp.Panic != "" || resp.Status != 200 {
@@ -327,7 +338,14 @@ func checkC10(c *InvalidCase) (*ev.Failure, string) {
 	if derr != nil {
 		return ev.Failf("envelope", "%v", derr), ""
 	}
-	for _, want := range c.ErrorPayload {
+	var wanted []map[string]interface{}
+	if hit > 0 {
+		wanted = append(wanted, c.ErrorPayload...)
+	}
+	if hit2 > 0 {
+		wanted = append(wanted, c.ErrorPayload2...)
+	}
+	for _, want := range wanted {
 		found := false
 		for _, got := range dec.Errors {
 			if errorClauseEqual(want, got) {
@@ -343,6 +361,9 @@ func checkC10(c *InvalidCase) (*ev.Failure, string) {
 			}
 			return ev.Failf("error-lost:"+clause, "service error %s does not reach the client intact; client errors %s", jsonOf(want), trunc(jsonOf(dec.Errors), 600)), ""
 		}
+	}
+	if hit > 0 && hit2 > 0 {
+		return nil, "service-errors-two-requests"
 	}
 	return nil, "service-errors"
 }
@@ -384,7 +405,7 @@ func genErrorPayload(t *rapid.T) []map[string]interface{} {
 
 func TestC10(t *testing.T) {
 	rec := ev.Get("C10")
-	rec.Rule = "(a) a valid generated operation whose execution causes downstream requests receives exactly one invalidating edit out of 17 kinds (unknown field/type/argument/directive/enum value, wrong argument or variable type, undefined/unused variable, fragment cycle, unused fragment, selection on scalar, missing selection, missing required argument, two operations without operationName, unknown operationName, syntax error), invalidity confirmed with gqlparser on the union schema; oracle: no request reaches any fake, errors non-empty, data null. (b) one sub-request of a valid operation is answered with a generated errors payload (1..4 errors; unicode/quotes, nested extensions, string/int paths, locations); oracle: every payload error appears in the client's errors with message, extensions, path equal. non-trivial = (a) the unedited original reaches >=2 services, (b) an error carries extensions and path; distinct by hash(case)"
+	rec.Rule = "(a) a valid generated operation whose execution causes downstream requests receives exactly one invalidating edit out of 17 kinds (unknown field/type/argument/directive/enum value, wrong argument or variable type, undefined/unused variable, fragment cycle, unused fragment, selection on scalar, missing selection, missing required argument, two operations without operationName, unknown operationName, syntax error), invalidity confirmed with gqlparser on the union schema; oracle: no request reaches any fake, errors non-empty, data null. (b) one sub-request of a valid operation is answered with a generated errors payload (1..4 errors; unicode/quotes, nested extensions, string/int paths, locations), in half of the cases a second sub-request of the same run (another service, or a later request) fails too, half of those with the same messages but own path/extensions; oracle: every payload error of every sub-request that was answered with errors appears in the client's errors with message, extensions, path equal. non-trivial = (a) the unedited original reaches >=2 services, (b) an error carries extensions and path; distinct by hash(case)"
 	defer census.dump("C10")
 	rapid.Check(t, func(t *rapid.T) {
 		opType := ast.Query
@@ -446,6 +467,38 @@ func TestC10(t *testing.T) {
 			for _, e := range c.ErrorPayload {
 				if e["extensions"] != nil && e["path"] != nil {
 					nt = true
+				}
+			}
+			if len(calls) > 1 && rapid.IntRange(0, 1).Draw(t, "second") == 0 {
+				// another sub-request of the same run fails too; half of the time with the same message (one cause,
+				// two services: each error has its own path and extensions and must reach the client)
+				var others []callRecord
+				for _, x := range calls {
+					if x != cr {
+						others = append(others, x)
+					}
+				}
+				if len(others) > 0 {
+					cr2 := others[rapid.IntRange(0, len(others)-1).Draw(t, "call2")]
+					occ2 := 0
+					for _, x := range calls {
+						if x == cr2 {
+							break
+						}
+						if x.URL == cr2.URL {
+							occ2++
+						}
+					}
+					c.Fault2 = &Fault{URL: cr2.URL, Occurrence: occ2, Pos: rapid.IntRange(0, cr2.BatchSize-1).Draw(t, "pos2")}
+					same := rapid.Bool().Draw(t, "samemsg2")
+					for i, e := range c.ErrorPayload {
+						e2 := map[string]interface{}{"message": fmt.Sprintf("second %d", i), "path": []interface{}{"second", float64(i)},
+							"extensions": map[string]interface{}{"code": "FORBIDDEN", "service": "second"}}
+						if same {
+							e2["message"] = e["message"]
+						}
+						c.ErrorPayload2 = append(c.ErrorPayload2, e2)
+					}
 				}
 			}
 		}
